@@ -160,8 +160,7 @@ def main():
         "not_applicable": na,
         "notes": "Every check rebuilds the engine against /repo's current working tree (cargo path dependency). Exit 0 held / 1 VIOLATION / 2 ENGINE-ERROR (machinery fault, never a verdict). Known findings: /verif/known_findings.txt.",
     }
-    if not na:
-        del man["not_applicable"]
+    # kept even when empty: every property is claimed, and the list says so explicitly
     with open(os.path.join(HERE, "MANIFEST.json"), "w") as f:
         json.dump(man, f, indent=1)
         f.write("\n")
